@@ -49,5 +49,17 @@ for pid in ids or sorted(props):
         hint = common + ("THIS ROUND'S RESTRICTION: the defect must live in the INTERPLAY of two public functions the property names (a builder and its query, an encoder and its decoder, a writer and its reader, "
                          "a constructor and a method, two calls on the same object): change one side (or both, consistently almost everywhere) so that each function looks right in isolation on the "
                          "existing tests but the pair violates the property for some inputs or some call order. No size thresholds above a few thousand elements and no dependence on GOMAXPROCS.")
+    if variant == "de":
+        variant = "d" if int(pid[1:]) % 2 else "e"
+    if variant == "d":
+        hint = common.replace("six earlier rounds", "seven earlier rounds") + ("THIS ROUND'S RESTRICTION: the defect must manifest only for DEGENERATE BUT LEGAL arguments - values the statement's quantifier "
+                         "allows but ordinary use rarely passes: nil versus empty-but-non-nil slices, zero sizes and zero widths, empty strings and empty elements inside a batch, duplicate or equal elements, "
+                         "a range whose two ends coincide, the smallest and largest value of each integer parameter that the statement admits, an object used before anything was put into it, "
+                         "a call that is legal but is a no-op. Everything else must keep working. Single goroutine, no size thresholds, no environment dependence.")
+    elif variant == "e":
+        hint = common.replace("six earlier rounds", "seven earlier rounds") + ("THIS ROUND'S RESTRICTION: each single result of the changed code must look plausible on its own (right length, right type of value, "
+                         "often even the right value); the violation must only be visible through a RELATION the property implies between SEVERAL results or calls: a round trip, an inverse pair, monotonicity or strict order "
+                         "across neighbouring inputs, agreement of two functions that must agree, a later call on the same object or the same arguments, the sum or count of parts against the whole. "
+                         "Single goroutine, inputs of moderate size (up to a few thousand elements), no environment dependence.")
     open(os.path.join(root, pid + ".prompt.txt"), "w").write(tmpl.replace("@DIR@", d).replace("@PROPERTY@", text).replace("@HINT@", hint))
     print(pid, len(tried.get(pid, [])), "earlier mechanisms")
